@@ -60,4 +60,4 @@ def container_only_iterated(fn, b):
 
 
 def is_tuple_vector(ty):
-    return ty.lstrip("&").startswith(("std::vec::Vec<(", "alloc::vec::Vec<("))
+    return ty.lstrip("&").replace("mut ", "").startswith("alloc::vec::Vec<(")
